@@ -782,7 +782,7 @@ class FeatureIntervalCollection(AbstractFeatureIntervalCollection):
             (self.start if chromosome_relative_coordinates else self.chunk_relative_start) + 1,
             self.end if chromosome_relative_coordinates else self.chunk_relative_end,
             NULL_COLUMN,
-            self.chunk_relative_location.strand,
+            self.strand if chromosome_relative_coordinates else self.chunk_relative_location.strand,
             CDSPhase.NONE,
             attributes,
         )
